@@ -14,7 +14,7 @@ const libPrefix = "github.com/openacid/low/"
 // the pair of innermost library functions of the two conflicting accesses. A report with no
 // library frame in either access stack is a harness problem (inconclusive), never a verdict.
 func scanRaceLogs(workDir, flavour string) (int, []Violation) {
-	files, _ := filepath.Glob(filepath.Join(workDir, "racelog."+flavour+".*"))
+	files, _ := filepath.Glob(filepath.Join(workDir, "racelog."+strings.ReplaceAll(flavour, "#", "_")+".*"))
 	sort.Strings(files)
 	total := 0
 	bySig := map[string]*Violation{}
